@@ -11,6 +11,15 @@ sequence and in the final read phase - is compared with the reference.  State me
 remembers every entry in order, so distinct histories practically never reach equal private states; instead the
 op alphabet is split into a *reduced* alphabet (singletons, duplicated edges, empty, scalar, full batch, reads,
 rebins) used at the deepest level and the *full* alphabet used up to one level below (see ``bound``).
+
+Second family ("ctor"): the way the binning and the initial entries are handed to the constructor is a dimension of its
+own.  For every base edge sequence: every admissible constructor form (``bin_edges`` alone / with ``n_bins`` / with
+``bin_range`` / with both, ``n_bins`` + ``bin_range`` where ``numpy.linspace`` is exact, inner edges + ``n_bins`` +
+``bin_range``) x every container type of ``bin_edges`` (list, tuple, float ndarray, int ndarray where the edges are
+integral) x every container type of ``bin_range`` (tuple, list, ndarray) x ``fill_data`` (absent, empty, the whole entry
+alphabet as list / tuple / ndarray), each followed by every operation sequence of length <= 1 over the full alphabet
+(thorough: also length 2 over the reduced alphabet) and the checked final reads.  All forms describe the same edge
+sequence, so the reference is unchanged.  ``rebin`` takes its edges as list, tuple and ndarray as well.
 """
 import collections
 import itertools
@@ -25,11 +34,14 @@ RULE = (
     "executions = (binning, operation sequence) replayed from scratch on a fresh HistContainer; ops = fill(batch) for every "
     "multiset of size <= 2 over the entry alphabet (all edges, their nextafter neighbours, mid-points, far below/above) + empty "
     "batch + scalars + one batch with the whole alphabet, reads of data/underflow/overflow/n_entries/raw_data, rebin to 3 "
-    "targets; every read inside the sequence and 5 final reads (underflow first) are compared with the multiset reference, "
+    "targets (edges as list; as tuple / ndarray outside the reduced alphabet); second family: every constructor form x "
+    "container type of bin_edges x container type of bin_range x fill_data form, followed by every sequence of length <= 1; "
+    "every read inside the sequence and 5 final reads (underflow first) are compared with the multiset reference, "
     "plus underflow + sum(data) + overflow == n_entries == number filled.  states = distinct reference states (binning, "
     "current edges, count vector, number of entries); non-trivial case = distinct (binning, op pattern with each entry "
     "abstracted to edge / just-below / just-above / interior / far) that fills >= 1 entry on or adjacent to an edge and has a "
-    "read or rebin before a later op"
+    "read or rebin before a later op; in the constructor family: distinct (binning, constructor variant, op pattern) with >= 1 "
+    "entry on or adjacent to an edge"
 )
 ASSUMPTIONS = [
     "edges and entries are exactly representable doubles (multiples of 1/16 after the affine map of the valuation), so the reference edge sequence is the implementation's bit for bit; n_bins/bin_range construction is used only where numpy.linspace is exact",
@@ -37,12 +49,31 @@ ASSUMPTIONS = [
     "raw_data is compared as a multiset (the statement does not fix an order)",
     "finite entries only; set_bins (manual heights) is not part of the statement and is not generated",
     "rebin changes the number of bins freely (no uncertainty sources are declared in this check)",
+    "constructor forms: bin_edges / bin_range / fill_data are sized containers (list, tuple, ndarray) of exactly representable numbers; the inner-edge form is generated with at least one inner edge; all forms of one binning denote the same full edge sequence [low] + inner + [high]; the caller's containers are not modified afterwards (no aliasing question is asked)",
 ]
 
 READS = ("data", "underflow", "overflow", "n_entries", "raw_data")
 FINAL_READS = ("underflow", "overflow", "n_entries", "raw_data", "data")
 VALUATIONS = ((1.0, 0.0), (2.0, -1.5), (0.25, 10.0))  # affine maps x -> s x + t, exact in binary floating point
 NSHARD = 16
+CTOR = -1  # shard number of the constructor-family job of a binning
+
+CTOR_FORMS = ("edges", "edges+n", "edges+range", "edges+n+range", "range", "inner")
+EDGE_TYPES = ("L", "T", "A", "I")  # list / tuple / float ndarray / int ndarray (integral edges only)
+RANGE_TYPES = ("T", "L", "A")
+FILL_TYPES = ("-", "E", "L", "T", "A")  # no fill_data / empty list / whole alphabet as list, tuple, ndarray
+
+
+def _container(how, values):
+    if how == "L":
+        return [float(x) for x in values]
+    if how == "T":
+        return tuple(float(x) for x in values)
+    if how == "A":
+        return np.array([float(x) for x in values], dtype=float)
+    if how == "I":
+        return np.array([int(x) for x in values], dtype=np.int64)
+    raise ValueError(how)
 
 # name -> (base edges, constructor form, prefill)
 BINNINGS = collections.OrderedDict(
@@ -147,6 +178,9 @@ class Config(object):
             add(("read", r), True)
         for tg in self.targets:
             add(("rebin", tg), True)
+        for tg in self.targets:  # container type of the new edges
+            add(("rebin", tg, "T"), False)
+            add(("rebin", tg, "A"), False)
         add(("fill", "L", ()), True)  # empty batch
         add(("fill", "A", ()), False)  # empty ndarray
         for n in names:
@@ -169,14 +203,69 @@ class Config(object):
         if op[0] == "read":
             return (1, op[1], None)
         if op[0] == "rebin":
-            return (2, list(self.targets[op[1]]), None)
+            how = op[2] if len(op) > 2 else "L"
+            if how not in ("L", "T", "A"):
+                raise ValueError(op)
+            return (2, list(self.targets[op[1]]), how)
         if op[0] == "fill":
             return (0, op[1], [self.val[n] for n in op[2]])
         raise ValueError(op)
 
-    def make(self):
+    def ctor_variants(self):
+        """Every admissible way to hand this edge sequence and the initial entries to the constructor:
+        (form, container type of bin_edges or '-', container type of bin_range or '-', fill_data form)."""
+        e = self.edges
+        integral = all(float(x).is_integer() for x in e)
+        out = []
+        for form in CTOR_FORMS:
+            if form == "range" and [float(x) for x in np.linspace(e[0], e[-1], len(e))] != e:
+                continue  # n_bins + bin_range cannot express this binning
+            if form == "inner" and len(e) < 3:
+                continue
+            etypes = ("-",) if form == "range" else tuple(t for t in EDGE_TYPES if t != "I" or integral)
+            rtypes = ("-",) if form in ("edges", "edges+n") else RANGE_TYPES
+            for et in etypes:
+                for rt in rtypes:
+                    for ft in FILL_TYPES:
+                        out.append((form, et, rt, ft))
+        return out
+
+    def variant_fill(self, variant):
+        """names of the entries passed as fill_data by this constructor variant"""
+        ft = variant[3]
+        if ft == "L":
+            return list(reversed(self.names))
+        if ft == "T":
+            return list(self.names)
+        if ft == "A":
+            return self.names[1::2] + self.names[0::2]
+        if ft in ("-", "E"):
+            return []
+        raise ValueError(ft)
+
+    def make_variant(self, variant):
         import kafe2
 
+        form, et, rt, ft = variant
+        if form not in CTOR_FORMS or tuple(variant) not in self.ctor_variants():
+            raise ValueError(variant)
+        e = self.edges
+        kw = {}
+        if form != "range":
+            kw["bin_edges"] = _container(et, e[1:-1] if form == "inner" else e)
+        if form in ("edges+n", "edges+n+range", "range", "inner"):
+            kw["n_bins"] = len(e) - 1
+        if form in ("edges+range", "edges+n+range", "range", "inner"):
+            kw["bin_range"] = _container(rt, (e[0], e[-1]))
+        if ft != "-":
+            kw["fill_data"] = _container("L" if ft == "E" else ft, [self.val[n] for n in self.variant_fill(variant)])
+        return kafe2.HistContainer(**kw)
+
+    def make(self, variant=None):
+        import kafe2
+
+        if variant is not None:
+            return self.make_variant(tuple(variant))
         e = self.edges
         kw = {}
         if self.prefill:
@@ -191,9 +280,9 @@ class Config(object):
             return kafe2.HistContainer(n_bins=len(e) - 1, bin_range=(e[0], e[-1]), bin_edges=list(e[1:-1]), **kw)
         raise ValueError(self.ctor)
 
-    def make_ref(self):
+    def make_ref(self, variant=None):
         r = HistRef(self.edges)
-        r.fill([self.val[n] for n in self.prefill_names])
+        r.fill([self.val[n] for n in (self.prefill_names if variant is None else self.variant_fill(variant))])
         return r
 
     def entry_class(self, n):
@@ -258,17 +347,17 @@ def _expected(ref, name, cnt=None):
     raise KeyError(name)
 
 
-def execute(cfg, cops, res=None, stop_at_first=True):
+def execute(cfg, cops, res=None, stop_at_first=True, variant=None):
     """Run compiled ops on a fresh container.  -> (violations, observation, ref, final reference counts)
     violations: list of (position, observable, expected, actual, mode); position = index of the op (or len(cops) + k for
     the k-th final read)."""
     viol = []
     obs = []
     try:
-        c = cfg.make()
+        c = cfg.make(variant)
     except Exception as e:  # noqa: BLE001
         return [(-1, "constructor", "no exception", "%s: %s" % (type(e).__name__, str(e)[:120]), "exception:" + type(e).__name__)], obs, None, None
-    ref = cfg.make_ref()
+    ref = cfg.make_ref(variant)
     nev = 0
     cnt = None
     for pos, (kind, a, b) in enumerate(cops):
@@ -277,7 +366,7 @@ def execute(cfg, cops, res=None, stop_at_first=True):
                 _do_fill(c, a, b)
                 ref.fill(b)
             elif kind == 2:
-                c.rebin(list(a))
+                c.rebin(_container(b, a))
                 ref.rebin(a)
             else:
                 act = _read(c, a)
@@ -393,6 +482,24 @@ def count_sequences(cfg, tier):
     return tot
 
 
+def ctor_sequences(cfg, tier):
+    """Op sequences run after every constructor variant: all of length <= 1 over the full alphabet; thorough: also all of
+    length 2 over the reduced alphabet."""
+    yield ()
+    n = len(cfg.ops)
+    for i in range(n):
+        yield (i,)
+    if tier != "quick":
+        red = sorted(cfg.reduced)
+        for i in red:
+            for j in red:
+                yield (i, j)
+
+
+def count_ctor(cfg, tier):
+    return len(cfg.ctor_variants()) * (1 + len(cfg.ops) + (len(cfg.reduced) ** 2 if tier != "quick" else 0))
+
+
 def jobs(tier, seed):
     vals = [seed % 3]
     specs = []
@@ -403,12 +510,28 @@ def jobs(tier, seed):
     # large binnings first in the pool, but keep a small job at index 0
     head, rest = specs[:1], specs[1:]
     rest.sort(key=lambda s: -len(config(s[0], s[1]).ops))
-    return head + rest
+    ctor = [(name, v, tier, CTOR) for name in BINNINGS for v in vals]
+    ctor.sort(key=lambda s: -count_ctor(config(s[0], s[1]), tier))
+    if tier != "quick":  # the constructor family is the longer job there
+        return head + ctor + rest
+    return head + rest + ctor
 
 
 def bound(tier, seed):
     lim = tier_limits(tier)
     n = sum(count_sequences(config(name, seed), tier) for name in BINNINGS)
+    nv = sum(len(config(name, seed).ctor_variants()) for name in BINNINGS)
+    nc = sum(count_ctor(config(name, seed), tier) for name in BINNINGS)
+    return _bound_main(lim, n, seed) + (
+        "; constructor family: the same 8 edge sequences x every admissible constructor form (bin_edges alone / + n_bins / + "
+        "bin_range / + both, n_bins + bin_range, inner edges + n_bins + bin_range) x container type of bin_edges (list, tuple, "
+        "float ndarray, int ndarray) x container type of bin_range (tuple, list, ndarray) x fill_data (absent, empty, whole "
+        "alphabet as list / tuple / ndarray) = %d variants x all sequences of length <= 1 over the full alphabet%s; %d executions"
+        % (nv, "" if tier == "quick" else " and of length 2 over the reduced alphabet", nc)
+    )
+
+
+def _bound_main(lim, n, seed):
     return (
         "8 binnings (single bin, zero-width inner / first / last bin, constructor-filled, uniform via n_bins+bin_range, "
         "non-uniform, inner-edge specification) x ALL operation sequences of length <= %d over the full alphabet (fills: every "
@@ -435,20 +558,42 @@ def _symbolic(cfg, seq):
 
 
 def _jsonop(op):
-    return [op[0], op[1], list(op[2])] if op[0] == "fill" else [op[0], op[1]]
+    return [op[0], op[1], list(op[2])] if op[0] == "fill" else list(op)
 
 
-def _violates(cfg, sops, observable, mode):
+def _violates(cfg, sops, observable, mode, variant=None):
     """symbolic ops -> True if the history shows a violation of the same observable and mode."""
     try:
         cops = [cfg.compile((o[0], o[1], tuple(o[2])) if o[0] == "fill" else tuple(o)) for o in sops]
+        viol = execute(cfg, cops, variant=variant)[0]
     except (KeyError, ValueError):
         return False
-    viol = execute(cfg, cops)[0]
     return any(v[1] == observable and v[4] == mode for v in viol)
 
 
-def minimise(cfg, sops, observable, mode):
+def minimise_variant(cfg, sops, observable, mode, variant):
+    """Canonical constructor variant: per component the first value (in alphabet order, plainest first) that still violates
+    with the given ops; then the ops are minimised again.  -> (variant, sops)"""
+    variant = tuple(variant)
+    admissible = set(cfg.ctor_variants())
+    for k, alphabet in ((3, FILL_TYPES), (2, ("-",) + RANGE_TYPES), (1, ("-",) + EDGE_TYPES), (0, CTOR_FORMS)):
+        for a in alphabet:
+            if a == variant[k]:
+                break
+            cand = variant[:k] + (a,) + variant[k + 1 :]
+            if cand in admissible and _violates(cfg, sops, observable, mode, cand):
+                variant = cand
+                break
+    return variant, minimise(cfg, sops, observable, mode, variant)
+
+
+def minimise(cfg, sops, observable, mode, variant=None):
+    if variant is None:
+        return _minimise(cfg, sops, observable, mode, _violates)
+    return _minimise(cfg, sops, observable, mode, lambda c, h, o, m: _violates(c, h, o, m, variant))
+
+
+def _minimise(cfg, sops, observable, mode, _violates):
     sops = explore.minimise(sops, lambda h: _violates(cfg, h, observable, mode))
     # shrink the batches
     changed = True
@@ -466,6 +611,10 @@ def minimise(cfg, sops, observable, mode):
                     changed = True
     # canonicalise: plain lists where possible, and the first entry value (in ascending order) that still violates
     for i, o in enumerate(sops):
+        if o[0] == "rebin" and len(o) > 2:
+            trial = sops[:i] + [[o[0], o[1]]] + sops[i + 1 :]
+            if _violates(cfg, trial, observable, mode):
+                sops = trial
         if o[0] != "fill":
             continue
         if o[1] != "L":
@@ -486,21 +635,22 @@ def minimise(cfg, sops, observable, mode):
     return explore.minimise(sops, lambda h: _violates(cfg, h, observable, mode))
 
 
-def signature(cfg, sops, observable, mode):
+def signature(cfg, sops, observable, mode, variant=None):
     toks = []
     for o in sops:
         if o[0] == "fill":
             toks.append("fill%s(%s)" % ("" if o[1] == "L" else ":" + o[1], ",".join(o[2])))
         else:
-            toks.append("%s:%s" % (o[0], o[1]))
-    return "%s|%s|%s|%s" % (cfg.name, ";".join(toks), observable, mode)
+            toks.append(":".join(o))
+    head = cfg.name if variant is None else "%s[%s]" % (cfg.name, ",".join(variant))
+    return "%s|%s|%s|%s" % (head, ";".join(toks), observable, mode)
 
 
 def replay(history):
     head = history[0]
     cfg = config(head["binning"], head["v"])
     cops = [cfg.compile((o[0], o[1], tuple(o[2])) if o[0] == "fill" else tuple(o)) for o in history[1:]]
-    viol = execute(cfg, cops, stop_at_first=False)[0]
+    viol = execute(cfg, cops, stop_at_first=False, variant=tuple(head["ctor"]) if head.get("ctor") else None)[0]
     return [dict(observable=v[1], expected=v[2], actual=v[3], mode=v[4], position=v[0]) for v in viol]
 
 
@@ -546,8 +696,71 @@ def _op_tables(cfg):
     return kind, static, ptok, akind, near_edge
 
 
+def run_ctor_job(spec):
+    """Constructor family of one binning: every constructor variant x every short op sequence."""
+    name, v, tier, _ = spec
+    cfg = config(name, v)
+    res = JobResult()
+    compiled = cfg.compiled
+    kind, static, ptok, akind, near_edge = _op_tables(cfg)
+    f, outcomes = res.facts, res.outcomes
+    seqs = list(ctor_sequences(cfg, tier))
+    seen_classes, seen_sigs = set(), set()
+    nexe = 0
+    for variant in cfg.ctor_variants():
+        form, et, rt, ft = variant
+        prefilled = ft in ("L", "T", "A")
+        buf = []
+        nbad = 0
+        for seq in seqs:
+            nexe += 1
+            cops = [compiled[i] for i in seq]
+            viol, obs, ref, cnt = execute(cfg, cops, res, variant=variant)
+            buf.append((seq, obs))
+            if viol:
+                nbad += 1
+                pos, observable, exp, act, mode = viol[0]
+                outcomes[(name, "ctor", observable, mode)] += 1
+                akey = (variant, tuple(akind[i] for i in seq), pos, observable, mode)
+                if akey in seen_classes or nbad > 64:  # one constructor variant that is wrong fails every sequence
+                    continue
+                seen_classes.add(akey)
+                var, sops = minimise_variant(cfg, _symbolic(cfg, seq), observable, mode, variant)
+                sig = signature(cfg, sops, observable, mode, var)
+                if sig in seen_sigs:
+                    continue
+                seen_sigs.add(sig)
+                hist = [dict(binning=name, v=cfg.v, ctor=list(var))] + sops
+                first = [a for a in replay(hist) if a["observable"] == observable and a["mode"] == mode]
+                if first:
+                    exp, act = first[0]["expected"], first[0]["actual"]
+                res.violation(sig, hist, observable, exp, act, mode)
+                continue
+            under, bins, over = cnt
+            res.state_hashes.add(hash((name, tuple(ref.edges), under, tuple(bins), over)))
+            outcomes[(name, "ctor", form, "u" if under else "-", "o" if over else "-", sum(1 for b in bins if b))] += 1
+            for i in seq:
+                if kind[i] == 0 and prefilled:
+                    f["fill:after-fill_data"] += 1
+                elif kind[i] == 3:
+                    f["rebin:after-ctor:" + form] += 1
+            if prefilled or any(near_edge[i] for i in seq):
+                res.nontrivial.add(hash((name, variant, tuple(ptok[i] for i in seq))))
+        res.observe((name, variant, buf))
+        f["ctor:form:" + form] += 1
+        f["ctor:%s:edges:%s" % (form, et)] += 1
+        f["ctor:range:" + rt] += 1
+        f["ctor:fill_data:" + ft] += 1
+    res.max_depth = max(len(s) for s in seqs)
+    f["ctor-executions:" + name] += nexe
+    res.sample(dict(binning=name, edges=cfg.edges, valuation=cfg.v, family="ctor", variants=len(cfg.ctor_variants()), sequences_per_variant=len(seqs)), cap=1)
+    return res.as_dict()
+
+
 def run_job(spec):
     name, v, tier, shard = spec
+    if shard == CTOR:
+        return run_ctor_job(spec)
     cfg = config(name, v)
     res = JobResult()
     probe = cfg.make()
@@ -611,6 +824,8 @@ def run_job(spec):
                     pending = False
             elif k == 3:
                 f["rebin:" + ("pending" if pending else "processed" if processed else "empty")] += 1
+                if len(ops[i]) > 2:
+                    f["rebin:edges-as:" + ops[i][2]] += 1
                 if pending or processed:
                     interleaved = True
         if pending:
@@ -662,3 +877,10 @@ def vacuity_guards(tot, tier):
     yield "a second fill after a read", f.get("fill:after-read", 0) > 0
     yield "rebin with pending and with processed entries", f.get("rebin:pending", 0) > 0 and f.get("rebin:processed", 0) > 0
     yield "underflow, overflow and several bins populated in the outcomes", len(tot.outcomes) > 20
+    yield "rebin with the new edges as tuple and as ndarray", all(f.get("rebin:edges-as:" + t, 0) > 0 for t in "TA")
+    yield "every constructor form explored", all(f.get("ctor:form:" + k, 0) > 0 for k in CTOR_FORMS)
+    yield "full and inner bin_edges given as list, tuple and ndarray", all(
+        f.get("ctor:%s:edges:%s" % (k, t), 0) > 0 for k in ("edges", "edges+n+range", "inner") for t in "LTA"
+    )
+    yield "bin_range given as tuple, list and ndarray", all(f.get("ctor:range:" + t, 0) > 0 for t in RANGE_TYPES)
+    yield "fill_data absent, empty, list, tuple and ndarray; fills after fill_data", all(f.get("ctor:fill_data:" + t, 0) > 0 for t in FILL_TYPES) and f.get("fill:after-fill_data", 0) > 0
